@@ -3,6 +3,8 @@ import math
 from datetime import datetime, timedelta
 from decimal import Decimal, getcontext
 
+import numpy as np
+
 from tradingenv.contracts import Cash, ETF, ES, Rate
 from tradingenv.broker.broker import Broker
 from tradingenv.broker.trade import Trade
@@ -31,7 +33,7 @@ ASSUMPTIONS = ["rate constant over the interval (the property's premise)", "rela
 REQUIRED = ["C06:split-invariance", "C06:same-instant-zero", "C06:earlier-time-rejected", "C06:query-changes-nothing",
             "C06:twin-query-bit-identical", "C06:positive-never-charged", "C06:negative-charged-at-r+m",
             "C06:margin-earns-nothing", "C06:rebalance-reports-interest", "C06:failed-rebalance-accrues-once"]
-REQUIRED_CATS = ["rate-quoted-two-sided", "sub-second-spacing", "tz-aware-changing-offsets"]
+REQUIRED_CATS = ["rate-quote-type:f32", "rate-quote-type:int", "rate-quoted-two-sided", "sub-second-spacing", "tz-aware-changing-offsets"]
 REQUIRED_HITS = ["Broker.accrued_interest"]
 TECHNIQUE = "runtime monitoring: closed-form reference model (60-digit decimal) and twin runs over generated accrual schedules"
 LEVEL_TEXT = ("Exploration. The real Broker.accrued_interest / Broker.rebalance are driven through thousands of generated accrual "
@@ -52,10 +54,10 @@ def mk(dep, rate, markup, t0, half_spread=0.0):
 
 def ref(bal, rate, markup, secs):
     sign = 1 if bal > 0 else -1 if bal < 0 else 0
-    c = Decimal(rate) - Decimal(markup) * sign
-    out = Decimal(bal) * (1 + c) ** (Decimal(secs) / Decimal(YEAR))
-    if bal > 0 and out < Decimal(bal):
-        out = Decimal(bal)
+    c = Decimal(float(rate)) - Decimal(markup) * sign
+    out = Decimal(float(bal)) * (1 + c) ** (Decimal(secs) / Decimal(YEAR))
+    if bal > 0 and out < Decimal(float(bal)):
+        out = Decimal(float(bal))
     return out
 
 
@@ -71,6 +73,14 @@ def case(ctx, i, tier):
         half_spread = rng.choice([0.0025, 0.01])
         rate = ((rate - half_spread) + (rate + half_spread)) / 2     # the mid the book will report
         ctx.cat("rate-quoted-two-sided")
+    if not half_spread and rng.random() < 0.25:
+        # the reference rate arrives as a numpy float32 / a Python int (feeds built from float32 tables, whole
+        # percentages): the rate that applies is that number exactly, and balances keep double precision
+        rq = rng.choice(["f32", "f32", "int"])
+        rate = np.float32(rate) if rq == "f32" else 0
+        if rq == "int":
+            markup = rng.choice([0, 0.005])
+        ctx.cat("rate-quote-type:" + rq)
     mode = rng.choice(["plain", "plain", "negative-by-leverage", "margined", "plain-negdeposit"])
     total = rng.choice([1, 60, 86400, YEAR, rng.randint(1, 40 * YEAR), rng.randint(1, 10 * 86400)])
     k = min(rng.choice([1, 1, 2, 5, 50, 500]), total)
@@ -136,8 +146,8 @@ def case(ctx, i, tier):
             qv = b.accrued_interest(t, False)
             ctx.check("C06:query-changes-nothing", dict(b.holdings_quantity) == before, before=before)
             bal = before[Cash()]
-            want = ref(bal, rate, markup, c_ - a_) - Decimal(bal)
-            ctx.check("C06:query-amount", abs(Decimal(float(qv)) - want) <= Decimal(1e-10) * max(abs(Decimal(bal)), abs(want)) + Decimal(1e-300),
+            want = ref(bal, rate, markup, c_ - a_) - Decimal(float(bal))
+            ctx.check("C06:query-amount", abs(Decimal(float(qv)) - want) <= Decimal(1e-10) * max(abs(Decimal(float(bal))), abs(want)) + Decimal(1e-300),
                       got=float(qv), want=float(want))
         bal_before = b.holdings_quantity[Cash()]
         if cash0 > 0 and mode == "plain" and rng.random() < 0.3:
@@ -177,9 +187,9 @@ def case(ctx, i, tier):
         if bal_before > 0:
             ctx.check("C06:positive-never-charged", amt >= 0, amount=float(amt), balance=bal_before)
         elif bal_before < 0:
-            want = ref(bal_before, rate, markup, c_ - a_) - Decimal(bal_before)
+            want = ref(bal_before, rate, markup, c_ - a_) - Decimal(float(bal_before))
             ctx.check("C06:negative-charged-at-r+m",
-                      abs(Decimal(float(amt)) - want) <= Decimal(1e-10) * max(abs(Decimal(bal_before)), abs(want)),
+                      abs(Decimal(float(amt)) - want) <= Decimal(1e-10) * max(abs(Decimal(float(bal_before))), abs(want)),
                       got=float(amt), want=float(want), rate=rate, markup=markup)
         again = b.accrued_interest(t, True)
         twin.accrued_interest(t, True)
@@ -195,7 +205,7 @@ def case(ctx, i, tier):
             ctx.check("C06:earlier-time-rejected", dict(b.holdings_quantity) == bq)
     got = b.holdings_quantity[Cash()]
     want = ref(cash0, rate, markup, Decimal(cuts_us[-1]) / 10 ** 6)
-    rel = abs(Decimal(got) - want) / abs(want) if want != 0 else abs(Decimal(got))
+    rel = abs(Decimal(float(got)) - want) / abs(want) if want != 0 else abs(Decimal(float(got)))
     ctx.check("C06:split-invariance", rel <= Decimal(1e-10), cash0=cash0, rate=rate, markup=markup, total=total, k=k,
               got=got, want=float(want), rel=float(rel))
     ctx.check("C06:twin-query-bit-identical", twin.holdings_quantity[Cash()] == got,
@@ -204,7 +214,7 @@ def case(ctx, i, tier):
         # posted margin earns nothing: the balance grew by the formula on cash only (checked above);
         # the margin itself is unchanged by accruals.
         ctx.check("C06:margin-earns-nothing", {k_: v_ for k_, v_ in b.holdings_margins.items() if v_ != 0} == {k_: v_ for k_, v_ in twin.holdings_margins.items() if v_ != 0} and
-                  abs(Decimal(got) - want) <= Decimal(1e-10) * abs(want), margins=b.holdings_margins)
+                  abs(Decimal(float(got)) - want) <= Decimal(1e-10) * abs(want), margins=b.holdings_margins)
     ctx.nontrivial = k >= 2 and (cash0 < 0 or markup > 0 or interleaved)
     ctx.sample = {"mode": mode, "cash0": cash0, "rate": rate, "markup": markup, "total_s": total, "k": k,
                   "cuts": [float(x) for x in cuts[:12]], "tz_aware": aware}
